@@ -708,10 +708,14 @@ impl AST {
                     ops.push(Op::Render, pos);
                 }
             }
-            TemplatePart::Expression(expr) => {
+            TemplatePart::Expression(mut expr) => {
                 if place_holder {
                     unreachable!();
                 } else {
+                    // The template is only parsed here, after the paths of
+                    // the file's imports and includes were made absolute.
+                    // Do the same for the ones in this expression.
+                    Rewriter::new(root).walk_expression(&mut expr);
                     Self::translate_expr(expr, ops, root);
                     ops.push(Op::Render, pos);
                 }
